@@ -170,15 +170,17 @@ theorem gen_guards2_no_opaque :
   decide
 
 /-- What lies beyond the prefixes. Error returns after the prefix (for `Aggregate` and `filterLeaf`: in the rest of the
-loop body): none for Sort, Distinct, GroupBy, QFrames, FilteredApply, WithRowNums, Eval, Filter, Equals and the readers — their
+loop body): none for Sort, Distinct, GroupBy, QFrames, FilteredApply, WithRowNums, Filter, Equals and the readers — their
 own rejection logic is entirely in the chain; two for `Aggregate`, `apply0`, `apply1`, `filterLeaf`, `ToSQL`, one for
-`apply2`, three (writer errors) for `ToCSV` / `ToJSON`. Tail calls: the three helpers end in the method `Copy` ends in
+`apply2`, one for `Eval` (a column reference of the expression that is not a column of the frame: `missingCol`, regenerated and
+proved in QF/Props/C07EvalGen.lean `gen_missingcol_semantics`, with the spec in C07EndToEnd), three (writer errors) for
+`ToCSV` / `ToJSON`. Tail calls: the three helpers end in the method `Copy` ends in
 (`set`: the name check of the destination), `apply0` also in `Copy` (a `ColumnName` function); `WithRowNums` in `Apply`;
 `Filter` in a method of its clause parameter; the readers in `New`. Frame methods called later: `FilteredApply` → `Apply`,
 `Eval` → `Copy`, `Drop`. `GroupBy` hands the frame's name map to the `Grouper`. -/
 theorem gen_guards2_complete :
     Gen.lateErrors2 = [("Sort", 0), ("Distinct", 0), ("GroupBy", 0), ("Aggregate", 2), ("QFrames", 0), ("apply0", 2),
-      ("apply1", 2), ("apply2", 1), ("FilteredApply", 0), ("WithRowNums", 0), ("Eval", 0), ("Filter", 0), ("filterLeaf", 2),
+      ("apply1", 2), ("apply2", 1), ("FilteredApply", 0), ("WithRowNums", 0), ("Eval", 1), ("Filter", 0), ("filterLeaf", 2),
       ("Equals", 0), ("ToCSV", 3), ("ToJSON", 3), ("ToSQL", 2), ("ReadCSV", 0), ("ReadJSON", 0), ("ReadSQL", 0),
       ("ReadSQLWithArgs", 0)] ∧
     Gen.openTails2 = [("apply0", "Copy"), ("apply0", "set"), ("apply1", "set"), ("apply2", "set"), ("WithRowNums", "Apply"),
